@@ -43,14 +43,14 @@ def k1(chk, prefix="K1/get_anon_var"):
     for p in paths:
         n += 1
         if p.kind != "return":
-            ex.oblige(f"never raises (path {n})", p.st, z3.BoolVal(False))
+            ex.oblige(f"never raises", p.st, z3.BoolVal(False))
             continue
         r = p.val
         suffix = z3.If(z3.Length(name) == 0, z3.StringVal(""), z3.Concat(z3.StringVal("_"), name))
         want = z3.Concat(z3.StringVal("_hy_"), base, suffix, z3.StringVal("_"), z3.IntToStr(c0 + 1))
-        ex.oblige(f'result == "_hy_" + base + ("_" + name if name else "") + "_" + str(old(count) + 1) (path {n})', p.st, r == want)
-        ex.oblige(f'result starts with the reserved prefix "_hy_" (path {n})', p.st, z3.PrefixOf(z3.StringVal("_hy_"), r))
-        ex.oblige(f"count == old(count) + 1 (path {n})", p.st, p.st.fields[(self_.oid, "anon_var_count")] == c0 + 1)
+        ex.oblige(f'result == "_hy_" + base + ("_" + name if name else "") + "_" + str(old(count) + 1)', p.st, r == want)
+        ex.oblige(f'result starts with the reserved prefix "_hy_"', p.st, z3.PrefixOf(z3.StringVal("_hy_"), r))
+        ex.oblige(f"count == old(count) + 1", p.st, p.st.fields[(self_.oid, "anon_var_count")] == c0 + 1)
     ex.oblige("vacuity: the function has at least one returning path", st, z3.BoolVal(any(p.kind == "return" for p in paths)))
     discharge(chk, prefix, ex)
     # injectivity lemma over the contract: names issued with different counters differ (the decimal suffix after the last
@@ -171,7 +171,7 @@ def c28(chk, prefix="hy_repr"):
     for i, p in enumerate(paths):
         k = {"return": "return", "raise": "exception"}.get(p.kind, p.kind)
         kinds[k] = kinds.get(k, 0) + 1
-        tag = f"{k} path {kinds[k]}"
+        tag = f"on {k}"
         ex.oblige(f"_seen restored ({tag})", p.st, p.st.globals["_seen"] == seen0)
         ex.oblige(f"_quoting restored ({tag})", p.st, p.st.globals["_quoting"] == quoting0)
     ex.oblige("vacuity: normal, early-return and exceptional exits are all reached", st,
@@ -277,9 +277,9 @@ def c38(chk, prefix="gensym"):
     for p in paths:
         k += 1
         acc = [e for e in p.st.log if e[0] in ("read", "write")]
-        ex.oblige(f"every read/write of _gensym_counter happens while the lock is held (path {k})", p.st,
+        ex.oblige(f"every read/write of _gensym_counter happens while the lock is held", p.st,
                   z3.BoolVal(all(e[1] is True for e in acc) and len(acc) >= 2))
-        ex.oblige(f"the lock is released on every exit (path {k})", p.st, z3.BoolVal(p.st.ghost["held"] is False and
+        ex.oblige(f"the lock is released on every exit", p.st, z3.BoolVal(p.st.ghost["held"] is False and
                                                                                     any(e[0] == "release" for e in p.st.log)))
         if p.kind in ("normal", "return"):
             n_ = p.st.frame.vars.get("n")
@@ -287,7 +287,7 @@ def c38(chk, prefix="gensym"):
             while n_ is None and fr is not None:
                 n_ = fr.vars.get("n")
                 fr = fr.parent
-            ex.oblige(f"n == counter at acquire + 1 == counter at release (path {k})", p.st,
+            ex.oblige(f"n == counter at acquire + 1 == counter at release", p.st,
                       z3.And(n_ == p.st.ghost["at_acquire"] + 1, [e for e in p.st.log if e[0] == "release"][-1][1] == n_))
     ex.oblige("vacuity: a path through the critical section exists", st, z3.BoolVal(len(paths) >= 1))
     discharge(chk, prefix, ex)
@@ -379,24 +379,24 @@ def c21_getc(chk, prefix="getc"):
     for p in paths:
         k += 1
         if p.kind != "return":
-            ex.oblige(f"never raises (path {k})", p.st, z3.BoolVal(False))
+            ex.oblige(f"never raises", p.st, z3.BoolVal(False))
             continue
         pos = p.st.fields[(self_.oid, "_pos")]
         eof = p.st.fields[(self_.oid, "_eof_tracker")]
         l2, c2 = pos.items
         e2l, e2c = eof.items
         empty = z3.Length(c) == 0
-        ex.oblige(f"returns the character obtained from peekc and consumes it (path {k})", p.st,
+        ex.oblige(f"returns the character obtained from peekc and consumes it", p.st,
                   z3.And(p.val == c, z3.BoolVal(p.st.ghost.get("consumed") is True)))
-        ex.oblige(f"end of input leaves _pos and _eof_tracker unchanged (path {k})", p.st,
+        ex.oblige(f"end of input leaves _pos and _eof_tracker unchanged", p.st,
                   z3.Implies(empty, z3.And(l2 == line, c2 == col, e2l == el, e2c == ec)))
-        ex.oblige(f"a newline moves to (line + 1, 0) (path {k})", p.st, z3.Implies(c == nl, z3.And(l2 == line + 1, c2 == 0)))
-        ex.oblige(f"any other character moves to (line, col + 1) (path {k})", p.st,
+        ex.oblige(f"a newline moves to (line + 1, 0)", p.st, z3.Implies(c == nl, z3.And(l2 == line + 1, c2 == 0)))
+        ex.oblige(f"any other character moves to (line, col + 1)", p.st,
                   z3.Implies(z3.And(z3.Not(empty), c != nl), z3.And(l2 == line, c2 == col + 1)))
-        ex.oblige(f"_eof_tracker becomes the new position after a non-space character, else is unchanged (path {k})", p.st,
+        ex.oblige(f"_eof_tracker becomes the new position after a non-space character, else is unchanged", p.st,
                   z3.And(z3.Implies(z3.And(z3.Not(empty), z3.Not(m.isspace(c))), z3.And(e2l == l2, e2c == c2)),
                          z3.Implies(z3.Or(empty, m.isspace(c)), z3.And(e2l == el, e2c == ec))))
-        ex.oblige(f"while characters are being saved the returned character is appended to the innermost save list (path {k})", p.st,
+        ex.oblige(f"while characters are being saved the returned character is appended to the innermost save list", p.st,
                   z3.And(z3.Implies(m.saving, p.st.ghost["saved"] == z3.Concat(saved0, c)),
                          z3.Implies(z3.Not(m.saving), p.st.ghost["saved"] == saved0)))
     ex.oblige("vacuity: at least three returning paths (end of input, newline, other)", st,
@@ -499,7 +499,7 @@ def c29(chk, prefix="as_model"):
     k = 0
     for p in paths:
         k += 1
-        tag = f"{p.kind} path {k}"
+        tag = f"{p.kind}"
         ex.oblige(f"as_model: _seen restored ({tag})", p.st, p.st.globals["_seen"] == seen0)
         if p.kind == "raise":
             ex.oblige(f"as_model: only HyWrapperError is raised ({tag})", p.st, z3.BoolVal(isinstance(p.val, ExcVal) and p.val.cls == "HyWrapperError"))
@@ -524,7 +524,7 @@ def c29(chk, prefix="as_model"):
         kk = 0
         for p in ps:
             kk += 1
-            ex2.oblige(f"{qual}: _seen restored ({p.kind} path {kk})", p.st, p.st.globals["_seen"] == seen0)
+            ex2.oblige(f"{qual}: _seen restored ({p.kind})", p.st, p.st.globals["_seen"] == seen0)
         ex2.oblige(f"{qual}: vacuity: a returning and a raising path exist", st2,
                    z3.BoolVal(any(p.kind == "return" for p in ps) and any(p.kind == "raise" for p in ps)))
         discharge(chk, prefix, ex2)
@@ -568,60 +568,109 @@ class ClosingModel(Model):
 ESCAPES_STR = "\n\r\\'\"abfnrtv01234567x"
 
 
+def _native_prelude(outer, inner_name, args):
+    """Run the statements of `outer` that precede the inner def natively (they only prepare the closure's free variables);
+    -> dict of the locals, or raises."""
+    pre = []
+    for stt in outer.body:
+        if isinstance(stt, ast.FunctionDef) and stt.name == inner_name:
+            break
+        if isinstance(stt, ast.Expr) and isinstance(stt.value, ast.Constant):
+            continue
+        pre.append(stt)
+    fn = ast.FunctionDef(name="_prelude", args=ast.arguments(posonlyargs=[], args=[ast.arg(arg=a) for a in args], kwonlyargs=[], kw_defaults=[], defaults=[]),
+                         body=pre + [ast.Return(value=ast.Call(func=ast.Name(id="locals", ctx=ast.Load()), args=[], keywords=[]))], decorator_list=[], type_params=[])
+    mod = ast.fix_missing_locations(ast.Module(body=[fn], type_ignores=[]))
+    import hy.reader.hy_reader as hrd
+    ns = dict(vars(hrd))
+    exec(compile(mod, "<prelude>", "exec"), ns)
+    return ns["_prelude"](**args)
+
+
+def _lift_local(v):
+    if isinstance(v, bool):
+        return z3.BoolVal(v)
+    if isinstance(v, int):
+        return z3.IntVal(v)
+    if isinstance(v, str):
+        return z3.StringVal(v)
+    return PyConst(v)
+
+
+STRING_PREFIXES = ("", "r", "b", "br", "rb", "f", "fr", "rf", "t", "rt", "tr")
+
+
 def c23_quote_closing(chk, prefix="quote_closing"):
+    """Per string prefix (the finite set the method accepts; its own validity test is run natively): the closure's free
+    variables are whatever the real prelude of prefixed_string computes for that prefix; `escaping` and the character are
+    symbolic.  Obligations are named by clause and prefix, not by path."""
     tree, outer = _src("hy/reader/hy_reader.py", "HyReader.prefixed_string")
     fn = _inner_def(outer, "quote_closing")
     chk.fn("hy/reader/hy_reader.py::HyReader.prefixed_string.quote_closing")
-    m = ClosingModel()
-    ex = Executor(tree, {}, m, "quote_closing")
-    st = State()
-    pfx = z3.String("prefix")
-    c = z3.String("c")
-    esc0 = z3.Bool("escaping0")
-    # ghost: parity0 = "the text fed so far ends with an odd number of backslashes" (defined by recursion on the text:
-    # parity(w + "\\") = not parity(w); parity(w + c) = False for any other c); invariant: escaping == parity
-    parity0 = esc0
-    outer_frame = E.Frame(None)
-    outer_frame.vars.update({"prefix": pfx, "escaping": esc0})
-    frame = E.Frame(outer_frame)
-    frame.vars["c"] = c
-    frame.nonlocal_decl.add("escaping")
-    st.frame = frame
-    st.pc += [z3.Length(c) == 1]
-    body = [s for s in fn.body if not isinstance(s, ast.Nonlocal)]
-    paths = ex.run_block(st, body)
     bs, q = z3.StringVal("\\"), z3.StringVal('"')
-    raw = z3.Contains(pfx, z3.StringVal("r"))
-    byt = z3.Contains(pfx, z3.StringVal("b"))
-    table = z3.If(byt, z3.StringVal(ESCAPES_STR), z3.StringVal(ESCAPES_STR + "NuU"))
-    bad_escape = z3.And(parity0, z3.Not(raw), z3.Not(z3.Contains(table, c)), c != bs)
-    closes = z3.And(c == q, z3.Not(parity0))
-    k = 0
-    for p in paths:
-        k += 1
-        esc1 = p.st.frame.parent.vars["escaping"] if p.st.frame.parent is not None else None
-        parity1 = z3.If(c == bs, z3.Not(parity0), z3.BoolVal(False))
-        if p.kind == "return":
-            ex.oblige(f"returns 1 exactly for a double quote preceded by an even number of backslashes, else 0 (path {k})", p.st,
-                      z3.And(z3.Implies(closes, p.val == 1), z3.Implies(z3.Not(closes), p.val == 0)))
-            ex.oblige(f"does not return when the escape is invalid (path {k})", p.st, z3.Not(z3.And(bad_escape, z3.Not(closes))))
-            ex.oblige(f"invariant preserved: escaping == parity of trailing backslashes (non-closing path {k})", p.st,
-                      z3.Implies(z3.Not(closes), esc1 == parity1))
-        elif p.kind == "raise":
-            ex.oblige(f"raises only for an escaped character outside Python's escape table when the prefix has no r (path {k})", p.st,
-                      z3.And(bad_escape, z3.BoolVal(isinstance(p.val, ExcVal) and p.val.cls == "LexException")))
-        else:
-            ex.oblige(f"unexpected completion {p.kind} (path {k})", p.st, z3.BoolVal(False))
-    ex.oblige("vacuity: returning and raising paths both exist", st, z3.BoolVal(any(p.kind == "return" for p in paths) and any(p.kind == "raise" for p in paths)))
-    discharge(chk, prefix, ex)
-    # the escape table of the code equals the specification string (read from the source constant)
-    consts = [n.value for n in ast.walk(fn) if isinstance(n, ast.Constant) and isinstance(n.value, str) and len(n.value) > 5]
-    chk.ob(prefix + "/the escape table in the source is Python's: \\newline \\\\ \\' \\\" \\a \\b \\f \\n \\r \\t \\v \\ooo \\xhh (+ \\N \\u \\U for str)",
-           sorted(consts[0]) == sorted(ESCAPES_STR) and "NuU" in [n.value for n in ast.walk(fn) if isinstance(n, ast.Constant)],
-           "structural", "proved", detail=repr(consts))
-    ret = [p for p in paths if p.kind == "return"]
-    chk.canary("C23: `escaping is set (not toggled) by a backslash` is refuted",
-               any(E.prove(p.st.pc + [c == bs], p.st.frame.parent.vars["escaping"] == z3.BoolVal(True))[0] == "refuted" for p in ret))
+    canary_refuted = False
+    accepted = []
+    for pfx in STRING_PREFIXES + ("x", "bf", "rr", "ft"):
+        try:
+            loc = _native_prelude(outer, "quote_closing", {"self": None, "_": '"', "prefix": pfx})
+        except Exception as e:  # noqa: BLE001  (LexException for an invalid prefix)
+            if pfx in STRING_PREFIXES:
+                chk.ob(f"{prefix}/prefix {pfx!r} is accepted", False, "native", "proved", detail=repr(e)[:200])
+            continue
+        if pfx not in STRING_PREFIXES:
+            chk.ob(f"{prefix}/prefix {pfx!r} is rejected", False, "native", "proved", detail="accepted")
+            continue
+        accepted.append(pfx)
+        m = ClosingModel()
+        ex = Executor(tree, {}, m, "quote_closing")
+        st = State()
+        c = z3.String("c")
+        esc0 = z3.Bool("escaping0")
+        # ghost: parity0 = "the text fed so far ends with an odd number of backslashes" (defined by recursion on the text:
+        # parity(w + "\\") = not parity(w); parity(w + c) = False for any other c); invariant: escaping == parity
+        parity0 = esc0
+        outer_frame = E.Frame(None)
+        outer_frame.vars.update({k: _lift_local(v) for k, v in loc.items() if k not in ("self", "_")})
+        outer_frame.vars["escaping"] = esc0
+        frame = E.Frame(outer_frame)
+        frame.vars["c"] = c
+        frame.nonlocal_decl.add("escaping")
+        st.frame = frame
+        st.pc += [z3.Length(c) == 1]
+        body = [s_ for s_ in fn.body if not isinstance(s_, ast.Nonlocal)]
+        try:
+            paths = ex.run_block(st, body)
+        except Unsupported as e:
+            chk.ob(f"{prefix}/prefix {pfx!r}: VC generation", None, "pyvc", "proved", detail=f"outside the VC generator's subset: {e}")
+            continue
+        raw, byt = "r" in pfx, "b" in pfx
+        table = z3.StringVal(ESCAPES_STR if byt else ESCAPES_STR + "NuU")
+        bad_escape = z3.And(parity0, z3.BoolVal(not raw), z3.Not(z3.Contains(table, c)), c != bs)
+        closes = z3.And(c == q, z3.Not(parity0))
+        tag = f"[prefix {pfx!r}]"
+        for p in paths:
+            esc1 = p.st.frame.parent.vars["escaping"] if p.st.frame.parent is not None else None
+            parity1 = z3.If(c == bs, z3.Not(parity0), z3.BoolVal(False))
+            if p.kind == "return":
+                ex.oblige(f"returns 1 exactly for a double quote preceded by an even number of backslashes, else 0 {tag}", p.st,
+                          z3.And(z3.Implies(closes, p.val == 1), z3.Implies(z3.Not(closes), p.val == 0)))
+                ex.oblige(f"does not return when the escape is invalid {tag}", p.st, z3.Not(z3.And(bad_escape, z3.Not(closes))))
+                ex.oblige(f"invariant preserved: escaping == parity of trailing backslashes (non-closing steps) {tag}", p.st,
+                          z3.Implies(z3.Not(closes), esc1 == parity1))
+            elif p.kind == "raise":
+                ex.oblige(f"raises only for an escaped character outside Python's escape table when the prefix has no r {tag}", p.st,
+                          z3.And(bad_escape, z3.BoolVal(isinstance(p.val, ExcVal) and p.val.cls == "LexException")))
+            else:
+                ex.oblige(f"unexpected completion {p.kind} {tag}", p.st, z3.BoolVal(False))
+        ex.oblige(f"vacuity: returning paths exist, raising paths exist exactly for non-raw prefixes {tag}", st,
+                  z3.BoolVal(any(p.kind == "return" for p in paths) and (any(p.kind == "raise" for p in paths) or raw)))
+        discharge(chk, prefix, ex)
+        ret = [p for p in paths if p.kind == "return"]
+        canary_refuted = canary_refuted or any(
+            E.prove(p.st.pc + [c == bs], p.st.frame.parent.vars["escaping"] == z3.BoolVal(True))[0] == "refuted" for p in ret)
+    chk.ob(prefix + "/every documented string prefix is accepted by the method's own validity test", sorted(accepted) == sorted(STRING_PREFIXES),
+           "native", "proved", detail=str(accepted))
+    chk.canary("C23: `escaping is set (not toggled) by a backslash` is refuted", canary_refuted)
 
 
 def c23_delim_closing(chk, prefix="delim_closing"):
@@ -654,16 +703,16 @@ def c23_delim_closing(chk, prefix="delim_closing"):
     for p in paths:
         k += 1
         if p.kind != "return":
-            ex.oblige(f"never raises (path {k}: {p.kind} {p.val})", p.st, z3.BoolVal(False))
+            ex.oblige(f"never raises ({p.kind})", p.st, z3.BoolVal(False))
             continue
         idx1 = p.st.frame.parent.vars["index"]
         rest1 = z3.If(c == rb, z3.StringVal(""), z3.Concat(rest, c))
         has1 = z3.Or(has, c == rb)
-        ex.oblige(f"returns len(delim) + 2 exactly when the text fed ends with ] + delim + ], else 0 (path {k})", p.st,
+        ex.oblige("returns len(delim) + 2 exactly when the text fed ends with ] + delim + ], else 0", p.st,
                   z3.And(z3.Implies(closes, p.val == z3.Length(delim) + 2), z3.Implies(z3.Not(closes), p.val == 0)))
         inv1 = z3.And(z3.Not(z3.Contains(rest1, rb)), idx1 >= -1,
                       (idx1 >= 0) == z3.And(has1, z3.PrefixOf(rest1, delim)), z3.Implies(idx1 >= 0, idx1 == z3.Length(rest1)))
-        ex.oblige(f"invariant preserved on non-closing steps (path {k})", p.st, z3.Implies(z3.Not(closes), inv1))
+        ex.oblige("invariant preserved on non-closing steps", p.st, z3.Implies(z3.Not(closes), inv1))
     ex.oblige("vacuity: at least four paths", st, z3.BoolVal(len(paths) >= 4))
     discharge(chk, prefix, ex)
     # lemma linking the ghost state to the text: with w = u + "]" + rest (or w = rest when no "]" was fed), "]" not in rest,
